@@ -160,7 +160,7 @@ class Histories(Part):
     def cases(self, ctx):
         rng = ctx.rng
         cases = []
-        for ops, num in ((5, 80), (8, 150)) if ctx.quick else ((5, 100), (8, 300), (12, 300)):
+        for ops, num in ((5, 80), (8, 150)) if ctx.quick else ((5, 400), (8, 1500), (12, 1500), (16, 800)):
             r = tlc.run("StoreApi", GEN_CFG % ops, ctx.scratch, workers=1, simulate="num=%d" % num, depth=ops + 1, seed=ctx.seed + ops,
                         name="StoreApi-gen-%d" % ops, timeout=1200)
             behs = sorted({b[1] for b in r.printed("BEH")})
@@ -170,7 +170,7 @@ class Histories(Part):
             for b in behs:
                 cases.append({"kind": "api", "hist": json.loads(b), "cseed": rng.randrange(1 << 30)})
         for alg in ("nsga2", "epsmoea", "omopso", "smpso", "psoga", "sweep", "scipy", "nlopt"):
-            for _ in range(1 if ctx.quick else 6):
+            for _ in range(1 if ctx.quick else 25):
                 cases.append({"kind": "run", "alg": alg, "n": rng.randint(3, 6), "g": rng.randint(1, 3), "cseed": rng.randrange(1 << 30)})
         return cases
 
